@@ -192,19 +192,52 @@ def r_strwrite(F, R, cat=None):
         ctx = Ctx(b)
         ok = True
         why = []
-        for o in ctx.org.local(0):
-            for (c, (r, p)) in base_places(ctx, o):
-                if r == ("arg", 2) and p == ():
-                    why.append("argument bytes")
-                elif r[0] == "call":
-                    tag = callee_tag(c.body.term(r[1]).get("callee"))
-                    if tag == ("BytesMap", "get"):
-                        why.append("whole BytesMap entry")
-                    else:
-                        ok = False
-                        why.append("result of %s::%s" % tag)
+        for (c, (r, p)) in value_sources(F, ctx, ctx.org.local(0)):
+            if r == ("arg", 2) and p == () and c is ctx:
+                why.append("argument bytes")
+            elif r[0] == "call":
+                tag = callee_tag(c.body.term(r[1]).get("callee"))
+                if tag == ("BytesMap", "get"):
+                    why.append("whole BytesMap entry")
                 else:
                     ok = False
-                    why.append(describe(c, (r, p)))
-        R.check("R-STRWRITE", b.label(), ok, construct="decode returns argument or whole entry",
-                where=b.where(), detail=", ".join(why))
+                    why.append("result of %s::%s" % tag)
+            else:
+                ok = False
+                why.append(describe(c, (r, p)))
+        R.check("R-STRWRITE", b.label(), ok and bool(why), construct="decode returns argument or whole entry",
+                where=b.where(), detail=", ".join(sorted(set(why))))
+
+
+LOOK_THROUGH = {("Option", "and_then"), ("Option", "map"), ("Option", "or_else"),
+                ("Option", "unwrap_or_else"), ("Option", "map_or"), ("Option", "map_or_else")}
+
+
+def value_sources(F, ctx, origins, depth=0):
+    """where a returned value comes from, looking through Option combinators into the closures
+    they call (closure results are resolved in the closure body)"""
+    from core import Ctx as _Ctx
+    out = set()
+    for o in origins:
+        for (c, (r, p)) in base_places(ctx, o):
+            if r[0] == "call" and depth < 6:
+                t = c.body.term(r[1])
+                tag = callee_tag(t.get("callee"))
+                if tag in LOOK_THROUGH:
+                    found = False
+                    for a in t["args"][1:]:
+                        for (r2, p2) in c.org.operand(a):
+                            if r2[0] == "agg":
+                                rv = c.org.stmt(r2[1], r2[2])["rv"]
+                                if rv.get("agg") == "closure":
+                                    cb = F.body(rv["closure"])
+                                    if cb is not None:
+                                        cc = _Ctx(cb)
+                                        out |= value_sources(F, cc, cc.org.local(0), depth + 1)
+                                        found = True
+                    if tag in (("Option", "or_else"), ("Option", "unwrap_or_else"), ("Option", "map_or")):
+                        out |= value_sources(F, c, c.org.operand(t["args"][0]), depth + 1)
+                    if found:
+                        continue
+            out.add((c, (r, p)))
+    return out
